@@ -23,15 +23,15 @@ ASSUMPTIONS = [
 ]
 FLOORS = {"quick": {"evaluations": 1500, "oracle_checks": 1500, "malformed_cases": 300,
                     "stack_relays": 40, "pairs": 200},
-          "thorough": {"evaluations": 50000, "oracle_checks": 50000, "malformed_cases": 5000,
-                       "stack_relays": 1000, "pairs": 5000}}
+          "thorough": {"evaluations": 400000, "oracle_checks": 300000, "malformed_cases": 50000,
+                       "stack_relays": 3000, "pairs": 150000}}
 
 
 def shards(tier, seed):
     if tier == "quick":
         return [{"seed": seed * 1000 + i, "n": 260, "n_mal": 12, "n_stack": 8, "max_in": 5,
                  "max_out": 5} for i in range(8)]
-    return [{"seed": seed * 1000 + i, "n": 6500, "n_mal": 120, "n_stack": 80, "max_in": 20,
+    return [{"seed": seed * 1000 + i, "n": 40000, "n_mal": 400, "n_stack": 300, "max_in": 20,
              "max_out": 20, "big": True} for i in range(16)]
 
 
